@@ -50,6 +50,41 @@ def psiN (interpN : α → α → α) (r z : α) : α := clampLo 0 (interpN r z)
 /-- `EFITLCFSMask.evaluate`: `polygon(r,z) > 0.0 and psi_n(r,z) <= 1.0`, the C boolean returned as a double. -/
 def insideLcfs (poly psin : α) : α := if poly > 0 ∧ psin ≤ 1 then 1 else 0
 
+/-! ### the polygon mask (cherab/core/math/mask.pyx) and the winding-number test it falls back on -/
+
+/-- one iteration of the loop of raysect `point_inside_polygon` (core/math/cython/utility.pyx): the contribution of the edge
+`a → b` to the winding number of `(px, py)`: `+1` for an upward crossing with the point strictly to the left, `-1` for a
+downward crossing with the point strictly to the right.  Same guard order and the same `side` expression as the code. -/
+def windingEdge (a b : α × α) (px py : α) : Int :=
+  if a.2 ≤ py then
+    if b.2 > py then
+      if (b.1 - a.1) * (py - a.2) - (px - a.1) * (b.2 - a.2) > 0 then 1 else 0
+    else 0
+  else
+    if b.2 ≤ py then
+      if (b.1 - a.1) * (py - a.2) - (px - a.1) * (b.2 - a.2) < 0 then -1 else 0
+    else 0
+
+/-- `for i in range(vertices.shape[0] - 1): winding_number += …` over the consecutive vertex pairs of the list handed over
+(which the caller has closed). -/
+def windingNumber : List (α × α) → α → α → Int
+  | a :: b :: rest, px, py => windingEdge a b px py + windingNumber (b :: rest) px py
+  | _, _, _ => 0
+
+/-- `point_inside_polygon`: `winding_number != 0` -/
+def pointInsidePolygon (closed : List (α × α)) (px py : α) : Bool := windingNumber closed px py != 0
+
+/-- mask.pyx `PolygonMask2D.__init__`: `np.vstack((vertices, vertices[:1, :]))` — first vertex repeated at the end. -/
+def closePolygon (vs : List (α × α)) : List (α × α) := vs ++ vs.take 1
+
+/-- mask.pyx `PolygonMask2D.evaluate`: `mesh` = value of the triangulated `Discrete2DMesh` at the point (1 in a triangle,
+default 0), then the winding-number fallback over the closed vertex list. -/
+def polygonMask (mesh : α) (vs : List (α × α)) (x y : α) : α :=
+  if mesh > 0 then 1 else if pointInsidePolygon (closePolygon vs) x y then 1 else 0
+
+/-- efit.pyx `_process_polygons`: the 2×N polygon `[[x…], [y…]]` transposed to the N×2 vertex list of the mask. -/
+def polygonVertices (xs ys : List α) : List (α × α) := xs.zip ys
+
 /-- raysect `clamp(v, 0, 1)` -/
 def clamp01 (v : α) : α := if v < 0 then 0 else if v > 1 then 1 else v
 
